@@ -214,6 +214,22 @@ def _p12f(ctx):
         ctx.add('P12f', 'T-GUARD', fr, not foreign, 'a new cycle is started depending only on the backlog size, the manager lock and the completion of the previous cycle' if not foreign else
                 'starting a reclamation cycle is made to depend on %s (test at %s): a condition that can stay false for good (e.g. the signal word, whose no-reader bit is never cleared) stops reclamation for ever - retired memory grows without bound'
                 % (foreign[0][1], g.where(foreign[0][0])), where=g.where(foreign[0][0]) if foreign else None, sub='start-guards')
+    # the backlog threshold is a one-sided bound (`len > 20`): start_free may decline (lock busy, previous cycle still
+    # pending) and is then tried again by the next free().  An equality is met once; after one refusal the backlog is past
+    # it for good and no cycle is ever started again
+    eqlen = []
+    for t_ in x.tests(('Eq',)):
+        if not any(re.search(r'Vec(::<.*>)?::len$', g.call_name(c_) or '') for side in (t_.a, t_.b) for c_ in x.calls_in(side)):
+            continue
+        edges_ = [e_ for e_ in g.nodes[t_.sid].succs if g.nodes[e_].kind == 'edge']
+        for b_ in bumps2:
+            dom_ = [e_ for e_ in edges_ if x.dom({e_}, b_.nid)]
+            if dom_ and len(dom_) < len(edges_):
+                eqlen.append(t_.sid)
+    if bumps2:
+        ctx.add('P12f', 'T-GUARD', fr, not eqlen, 'the backlog threshold that starts a cycle is a one-sided bound' if not eqlen else
+                'a reclamation cycle is only started when the backlog size *equals* a threshold (test at %s): start_free may decline (manager lock busy, previous cycle pending); the next free() finds the backlog past the threshold and never tries again - retired memory grows without bound'
+                % g.where(eqlen[0]), where=g.where(eqlen[0]) if eqlen else None, sub='start-threshold')
     clears = [a for a in x.atoms_on('AtomicSignal.flags') if a.op == 'fetch_and']
     tf = x.inlined(r'MemoryManagerInner::try_freeing$')
     true_edges = set()
